@@ -1,9 +1,13 @@
 //! C06: every input yields output or a diagnostic: no crash, no hang.
 //! The malformed stream, run through parse_ledger, FormatOptions::format, report::process +
-//! balance/postings queries (FakeFileSystem) and Loader::load on include cycles, each case in
-//! a child process with a 5 s watchdog.
+//! balance/postings queries (FakeFileSystem), Loader::load on include cycles, and through the
+//! commands themselves -- `okane format|balance|register|accounts`, with and without -X /
+//! --historical / a date range / --price-db -- on files of the real file system: in-process
+//! (the code of cli/src/bin/okane.rs) inside a child process with a 5 s watchdog per case, and
+//! the built binary in fresh processes (exit status, signal, wall time).
 use crate::c05::last_panic;
 use crate::child::{self, ChildObs};
+use crate::cli;
 use crate::coq::{self, Shards, Stats};
 use crate::parseobs;
 use crate::pgen;
@@ -69,7 +73,56 @@ fn process_and_query(files: &[(String, String)]) -> (String, String) {
     }
 }
 
-/// child side, mode "c06": input = JSON {"text":..., "process": bool}
+/// outcome of one in-process command: ok | err:<first line> | panic:<message>
+fn cli_outcome(args: &[&str]) -> String {
+    let r = cli::run(args);
+    if r.panicked {
+        format!("panic:{}", last_panic())
+    } else if r.ok {
+        "ok".to_string()
+    } else {
+        format!("err:{}", r.stderr.lines().next().unwrap_or("").chars().take(80).collect::<String>())
+    }
+}
+
+/// the names of the commands of `cli_suite`, in the order the classifier receives them
+pub const CLI_NAMES: [&str; 8] = ["format", "balance", "balance_x", "balance_hist", "balance_range", "register", "register_acct", "accounts"];
+
+const NON_COMMODITY: &str = " \t\r\n0123456789.,;:?!-+*/^&|=<>[](){}@";
+
+/// a commodity that occurs in the text (a token of commodity characters after a number), else USD
+pub fn some_commodity(text: &str) -> String {
+    let mut prev_num = false;
+    for tok in text.split_whitespace() {
+        if prev_num && !tok.is_empty() && tok.chars().all(|c| !NON_COMMODITY.contains(c)) {
+            return tok.to_string();
+        }
+        prev_num = tok.chars().last().map(|c| c.is_ascii_digit()).unwrap_or(false);
+    }
+    "USD".to_string()
+}
+
+/// `okane <command>` on the file `main` of the real file system, in this process
+fn cli_suite(main: &str, x: &str, only_format: bool) -> Value {
+    let mut m = serde_json::Map::new();
+    m.insert("format".into(), json!(cli_outcome(&["format", main])));
+    if only_format {
+        return Value::Object(m);
+    }
+    m.insert("balance".into(), json!(cli_outcome(&["balance", main])));
+    m.insert("balance_x".into(), json!(cli_outcome(&["balance", "-X", x, "--now", "2024-06-01", main])));
+    m.insert("balance_hist".into(), json!(cli_outcome(&["balance", "-X", x, "--historical", "--now", "2024-06-01", main])));
+    m.insert(
+        "balance_range".into(),
+        json!(cli_outcome(&["balance", "--start", "2000-01-01", "--end", "2024-03-01", "-X", x, "--now", "2024-06-01", main])),
+    );
+    m.insert("register".into(), json!(cli_outcome(&["register", "--now", "2024-06-01", main])));
+    m.insert("register_acct".into(), json!(cli_outcome(&["register", "--now", "2024-06-01", main, "A"])));
+    m.insert("accounts".into(), json!(cli_outcome(&["accounts", main])));
+    Value::Object(m)
+}
+
+/// child side, mode "c06": input = JSON {"text":..., "process": bool, "cli": "all"|"format"|"none"}
 pub fn child_observe(input: &[u8]) -> String {
     let v: Value = match serde_json::from_slice(input) {
         Ok(v) => v,
@@ -91,7 +144,16 @@ pub fn child_observe(input: &[u8]) -> String {
     } else {
         ("skip".to_string(), "skip".to_string())
     };
-    json!({"parse": p, "entries": n, "format": f, "process": pr, "query": q}).to_string()
+    let mode = v["cli"].as_str().unwrap_or("all").to_string();
+    let cli_obs = if mode == "none" {
+        json!({})
+    } else {
+        let text = v["text"].as_str().unwrap_or("");
+        let scratch = cli::Scratch::new("c06");
+        let main = scratch.write("main.ledger", text);
+        cli_suite(&main.to_string_lossy(), &some_commodity(text), mode == "format")
+    };
+    json!({"parse": p, "entries": n, "format": f, "process": pr, "query": q, "cli": cli_obs}).to_string()
 }
 
 /// child side, mode "c06load": input = JSON {"files": [[path, content], ...]}; root /main.ledger
@@ -120,7 +182,48 @@ pub fn child_load(input: &[u8]) -> String {
         r.map(|_| n).map_err(|e| format!("{}", e))
     });
     let (pr, q) = process_and_query(&files);
-    json!({"load": l, "process": pr, "query": q}).to_string()
+    // the same graph as files of the real file system, through the commands
+    let scratch = cli::Scratch::new("c06g");
+    for (p, c) in &files {
+        scratch.write(p.trim_start_matches('/'), c);
+    }
+    let main = scratch.dir.join("main.ledger").to_string_lossy().to_string();
+    let mut real = serde_json::Map::new();
+    real.insert("flatten".into(), json!(cli_outcome(&["primitive", "flatten", &main])));
+    real.insert("balance".into(), json!(cli_outcome(&["balance", &main])));
+    real.insert("balance_x".into(), json!(cli_outcome(&["balance", "-X", "USD", "--now", "2024-06-01", &main])));
+    real.insert("register".into(), json!(cli_outcome(&["register", "--now", "2024-06-01", &main])));
+    real.insert("accounts".into(), json!(cli_outcome(&["accounts", &main])));
+    real.insert("format".into(), json!(cli_outcome(&["format", &main])));
+    json!({"load": l, "process": pr, "query": q, "real": Value::Object(real)}).to_string()
+}
+
+pub const PRICE_NAMES: [&str; 5] = ["balance_db", "balance_db_x", "balance_db_hist", "balance_db_range", "register_db"];
+
+/// child side, mode "c06price": input = JSON {"ledger":..., "db":..., "x":...}: the commands with
+/// --price-db on real files (report::process then runs PriceRepositoryBuilder::load_price_db)
+pub fn child_price(input: &[u8]) -> String {
+    let v: Value = match serde_json::from_slice(input) {
+        Ok(v) => v,
+        Err(_) => return json!({"harness_error": "bad input"}).to_string(),
+    };
+    let scratch = cli::Scratch::new("c06p");
+    let main = scratch.write("main.ledger", v["ledger"].as_str().unwrap_or("")).to_string_lossy().to_string();
+    let db = scratch.write("prices.db", v["db"].as_str().unwrap_or("")).to_string_lossy().to_string();
+    let x = v["x"].as_str().unwrap_or("USD").to_string();
+    let mut m = serde_json::Map::new();
+    m.insert("balance_db".into(), json!(cli_outcome(&["balance", "--price-db", &db, main.as_str()])));
+    m.insert("balance_db_x".into(), json!(cli_outcome(&["balance", "--price-db", &db, "-X", &x, "--now", "2024-06-01", &main])));
+    m.insert(
+        "balance_db_hist".into(),
+        json!(cli_outcome(&["balance", "--price-db", &db, "-X", &x, "--historical", "--now", "2024-06-01", &main])),
+    );
+    m.insert(
+        "balance_db_range".into(),
+        json!(cli_outcome(&["balance", "--price-db", &db, "-X", &x, "--now", "2030-01-01", "--start", "2000-01-01", "--end", "2030-01-01", &main])),
+    );
+    m.insert("register_db".into(), json!(cli_outcome(&["register", "--price-db", &db, "--now", "2024-06-01", &main])));
+    Value::Object(m).to_string()
 }
 
 fn outcome(s: &str) -> &'static str {
@@ -130,26 +233,45 @@ fn outcome(s: &str) -> &'static str {
         "RErr"
     } else if s.starts_with("panic") {
         "RPanic"
+    } else if s.starts_with("timeout") {
+        "RTimeout"
+    } else if s.starts_with("abort") {
+        "RAbort"
     } else {
         "RSkip"
     }
 }
 
+fn crash(s: &str) -> bool {
+    s.starts_with("panic") || s.starts_with("timeout") || s.starts_with("abort")
+}
+
+/// the outcomes of the named commands, in order; absent = not run
+fn outcomes(v: &Value, names: &[&str]) -> Vec<String> {
+    names.iter().filter_map(|k| v.get(*k).and_then(|x| x.as_str()).map(|s| s.to_string())).collect()
+}
+
+fn outcome_list(os: &[String]) -> String {
+    coq::list(os.iter().map(|s| outcome(s).to_string()))
+}
+
 fn obs_term(co: &ChildObs) -> (String, Value, bool) {
     match co {
-        ChildObs::Timeout => ("{| o_parse := RTimeout; o_format := RSkip; o_process := RSkip; o_query := RSkip |}".into(), json!("timeout"), true),
-        ChildObs::Abort(s) => ("{| o_parse := RAbort; o_format := RSkip; o_process := RSkip; o_query := RSkip |}".into(), json!({ "abort": s }), true),
+        ChildObs::Timeout => ("{| o_parse := RTimeout; o_format := RSkip; o_process := RSkip; o_query := RSkip; o_cli := [] |}".into(), json!("timeout"), true),
+        ChildObs::Abort(s) => ("{| o_parse := RAbort; o_format := RSkip; o_process := RSkip; o_query := RSkip; o_cli := [] |}".into(), json!({ "abort": s }), true),
         ChildObs::Line(l) => {
             let v: Value = serde_json::from_str(l).unwrap_or(json!({}));
             let g = |k: &str| v[k].as_str().unwrap_or("harness").to_string();
+            let cl = outcomes(&v["cli"], &CLI_NAMES);
             let t = format!(
-                "{{| o_parse := {}; o_format := {}; o_process := {}; o_query := {} |}}",
+                "{{| o_parse := {}; o_format := {}; o_process := {}; o_query := {}; o_cli := {} |}}",
                 outcome(&g("parse")),
                 outcome(&g("format")),
                 outcome(&g("process")),
-                outcome(&g("query"))
+                outcome(&g("query")),
+                outcome_list(&cl)
             );
-            let bad = [g("parse"), g("format"), g("process"), g("query")].iter().any(|s| s.starts_with("panic"));
+            let bad = [g("parse"), g("format"), g("process"), g("query")].iter().chain(cl.iter()).any(|s| crash(s));
             (t, v, bad)
         }
     }
@@ -166,20 +288,35 @@ fn count_obs(st: &mut Stats, co: &ChildObs, v: &Value) {
                     st.count(&format!("{}:{}", k, c));
                 }
             }
+            for group in ["cli", "real"] {
+                if let Some(m) = v[group].as_object() {
+                    for (k, s) in m {
+                        let c = s.as_str().unwrap_or("").split(':').next().unwrap_or("").to_string();
+                        st.count(&format!("{}:{}:{}", group, k, c));
+                    }
+                }
+            }
         }
     }
 }
 
-fn input_json(text: &str, process: bool) -> Vec<u8> {
-    json!({"text": text, "process": process}).to_string().into_bytes()
+fn input_json(text: &str, process: bool, cli: &str) -> Vec<u8> {
+    json!({"text": text, "process": process, "cli": cli}).to_string().into_bytes()
 }
 
 struct Single {
     text: String,
     stream: &'static str,
     process: bool,
+    /// which commands run on the real file: "all" | "format" (texts whose numbers leave the
+    /// representable range: no arithmetic) | "none"
+    cli: &'static str,
     /// Coq expression building the text, when it is not written out (deep nesting)
     built: Option<String>,
+}
+
+fn single(text: String, stream: &'static str) -> Single {
+    Single { text, stream, process: true, cli: "all", built: None }
 }
 
 fn nested(pre: &str, open: &str, n: usize, mid: &str, close: &str, post: &str) -> Single {
@@ -194,8 +331,32 @@ fn nested(pre: &str, open: &str, n: usize, mid: &str, close: &str, post: &str) -
         parseobs::text(close),
         parseobs::text(post)
     );
-    Single { text, stream: "deep-nesting", process: n <= 200, built: Some(built) }
+    Single { text, stream: "deep-nesting", process: n <= 200, cli: "all", built: Some(built) }
 }
+
+/// commodities that stress the display-width oracle of the printer's balance column: wide,
+/// zero-width and combining characters, variation selectors, ZWJ sequences, regional
+/// indicators, Khmer coeng, Tifinagh joiner, Arabic lam-alef, Lisu tones
+const WIDTH_COMMODITIES: [&str; 18] = [
+    "\u{FE0F}\u{200D}\u{1F642}",
+    "\u{FE0F}\u{20E3}",
+    "\u{200D}\u{1F468}\u{200D}\u{1F469}",
+    "\u{1F1E6}\u{1F1E7}\u{1F1E8}",
+    "\u{1F642}\u{200D}\u{1F1E6}\u{1F1E7}\u{1F1E8}",
+    "\u{17D2}\u{1780}",
+    "\u{1780}\u{17D2}\u{1780}",
+    "\u{2D31}\u{2D7F}\u{2D31}",
+    "\u{644}\u{627}",
+    "\u{A4F8}\u{A4FC}",
+    "\u{0301}\u{0301}\u{0301}",
+    "\u{200B}\u{200B}",
+    "\u{0338}",
+    "\u{7C73}\u{30C9}\u{30EB}",
+    "\u{1F3FB}\u{1F3FB}",
+    "\u{E007F}\u{E0061}",
+    "\u{00AD}\u{00AD}",
+    "\u{1160}\u{11A8}",
+];
 
 fn singles(o: &Opts, r: &mut Rng) -> Vec<Single> {
     let mut v = Vec::new();
@@ -208,11 +369,24 @@ fn singles(o: &Opts, r: &mut Rng) -> Vec<Single> {
         "2024/01/01 x\n  A  0,000.05 USD\n  B\n",
         "2024/01/01 x\n  A  (1 USD / 0)\n  B\n",
         "2024/01/01 x\n  A  (1 USD / 0 USD)\n  B\n",
+        "2024/01/01 x\n  A  (1 / 0)\n  B\n",
+        "2024/01/01 x\n  A  (0 / 0)\n  B\n",
+        "2024/01/01 x\n  A  ((2 * 3) / (1 - 1))\n  B\n",
+        "2024/01/01 x\n  A  (1 / 0 USD)\n  B\n",
+        "2024/01/01 x\n  A  (1 / (1 USD - 1 USD))\n  B\n",
+        "2024/01/01 x\n  A  1 USD @ (1 EUR / 0)\n  B\n",
+        "2024/01/01 x\n  A  1 USD = (1 USD / (0 * 5))\n  B\n",
+        "2024/01/01 x\n  A  1 USD {(2 EUR / 0.00)}\n  B\n",
         "2024/01/01 x\n  A  1 USD @ 0 EUR\n  B\n",
         "2024/01/01 x\n  A  1 USD {0 EUR}\n  B\n",
         "2024/01/01 x\n  A  = 0\n",
         "include nothing-here.ledger\n",
         "include /main.ledger\n",
+        "include main.ledger\n",
+        "include *.ledger\n",
+        "include ../*/main.ledger\n",
+        "include .\n",
+        "include /\n",
         "account",
         "account ",
         "apply tag",
@@ -229,9 +403,15 @@ fn singles(o: &Opts, r: &mut Rng) -> Vec<Single> {
         "2024/01/01 (\n",
         "0000/01/01\n",
         "9999/12/31 x\n  A  1\n  B  -1\n",
+        "2024/01/01 x\n  A  1 USD @ 2 EUR\n  B  -2 EUR\n2024/02/01 y\n  A  1 JPY\n  B  -1 JPY\n",
+        "2024/01/01 x\n  A  1 USD @ 1 USD\n  B\n",
+        "2024/01/01 x\n  A  1 USD @@ 0.0000000000000000000000000001 EUR\n  B\n",
+        "account A\n  alias A\n",
+        "commodity USD\n  alias USD\n",
+        "commodity USD\n  format 1,000.0000000000000000000000000000 USD\n2024/01/01 x\n  A  1 USD\n  B\n",
     ];
     for t in corpus {
-        v.push(Single { text: t.to_string(), stream: "corpus", process: true, built: None });
+        v.push(single(t.to_string(), "corpus"));
     }
     if let Ok(rd) = std::fs::read_dir(&o.corpus) {
         let mut files: Vec<_> = rd.filter_map(|e| e.ok()).map(|e| e.path()).collect();
@@ -240,7 +420,7 @@ fn singles(o: &Opts, r: &mut Rng) -> Vec<Single> {
             if let Ok(text) = std::fs::read_to_string(&p) {
                 if let Ok(j) = serde_json::from_str::<Value>(&text) {
                     if let Some(t) = j.get("text").and_then(|x| x.as_str()) {
-                        v.push(Single { text: t.to_string(), stream: "corpus-file", process: true, built: None });
+                        v.push(single(t.to_string(), "corpus-file"));
                     }
                 }
             }
@@ -271,24 +451,102 @@ fn singles(o: &Opts, r: &mut Rng) -> Vec<Single> {
             format!("2024/01/01 x\n  A  1 USD @ {} EUR\n  B\n", d),
             format!("commodity USD\n  format {}.00 USD\n", d),
         ] {
-            v.push(Single { text: t, stream: "huge-literal", process: n <= 12, built: None });
+            v.push(Single { text: t, stream: "huge-literal", process: n <= 12, cli: "format", built: None });
         }
     }
     // zero rates / amounts in every position
     for a in ["0", "0.00", "-0", "1"] {
-        for c in ["@ 0 EUR", "@@ 0 EUR", "{0 EUR}", "{{0 EUR}}", "@ 0", "{0}", "@ (1 EUR - 1 EUR)", "= 0", "= 0 USD"] {
-            v.push(Single {
-                text: format!("2024/01/01 x\n  A  {} USD {}\n  B\n2024/01/02 y\n  A  1 USD\n  B  -1 USD\n", a, c),
-                stream: "zero-positions",
-                process: true,
-                built: None,
-            });
+        for c in ["@ 0 EUR", "@@ 0 EUR", "{0 EUR}", "{{0 EUR}}", "@ 0", "{0}", "@ (1 EUR - 1 EUR)", "= 0", "= 0 USD", "@ 1 USD", "@@ 0 USD", "{{1 USD}}"] {
+            v.push(single(
+                format!("2024/01/01 x\n  A  {} USD {}\n  B\n2024/01/02 y\n  A  1 USD\n  B  -1 USD\n", a, c),
+                "zero-positions",
+            ));
         }
+    }
+    // the printer's width subtraction: balance-only and amount+balance postings whose commodity
+    // is wide, zero-width or part of a sequence unicode-width measures as a whole
+    for (k, c) in WIDTH_COMMODITIES.iter().enumerate() {
+        for b in [
+            format!("= 1 {}", c),
+            format!("= (1 {} + 2 {})", c, c),
+            format!("= -12,345.60 {}", c),
+            format!("1 {} = 1 {}", c, c),
+            format!("= (1 + 2) * 3 {}", c),
+        ] {
+            let acct = if k % 2 == 0 { "A".to_string() } else { format!("\u{8CC7}\u{7523}:{}", c) };
+            v.push(single(format!("2024/01/01 x\n  {}  {}\n", acct, b), "width-oracle"));
+        }
+    }
+    // grammatical ledgers that book (or fail in book-keeping), and each cut at every line
+    let n = if o.thorough { 400 } else { 40 };
+    for k in 0..n {
+        let mut b = crate::ledger::Bias::default_bias();
+        b.max_txns = 5;
+        b.expr_pct = 20;
+        b.assert_pct = 10;
+        b.unbalanced_pct = if k % 4 == 0 { 50 } else { 3 };
+        b.omit_pct = 40;
+        let es = crate::ledger::gen_ledger(r, &b);
+        let text = crate::ledger::render(&es).text;
+        let lines: Vec<&str> = text.split_inclusive('\n').collect();
+        if k % 4 == 1 {
+            for cut in 1..lines.len() {
+                v.push(single(lines[..cut].concat(), "booked-cut"));
+            }
+        }
+        v.push(single(text, "booked"));
+    }
+    // numerically adversarial valid ledgers: declared formats, half-unit and sub-precision
+    // residues, zero amounts with @ / @@ / {} / {{}}, two- and three-commodity residuals (the
+    // enumerated boundary set of C01), sub-precision residues beside another commodity, and
+    // generated ledgers biased to zeros, costs, lots, formats and unbalanced transactions
+    for es in crate::c01::boundary_cases() {
+        v.push(single(crate::ledger::render(&es).text, "numeric-boundary"));
+    }
+    for dp in [0u32, 2, 3] {
+        let unit = 10i64.pow(3 - dp.min(3)); // one unit of the declared precision, in thousandths
+        for residue in [0i64, 1, unit / 2 - 1, unit / 2, unit / 2 + 1, unit - 1, unit, -1, -(unit / 2), -(unit / 2) - 1] {
+            for other in ["-5 EUR", "5 EUR", "0 EUR", "0.004 EUR", "-5 EUR @ 2 JPY", "-5 EUR {2 JPY}", "(1 EUR - 1 EUR)"] {
+                for three in [false, true] {
+                    let fmt = match dp {
+                        0 => "1,000",
+                        2 => "1,000.00",
+                        _ => "1,000.000",
+                    };
+                    let a = 10_000 + residue;
+                    let mut t = format!(
+                        "commodity USD\n  format {} USD\n\n2024/01/01 x\n  A  {}.{:03} USD\n  B  -10.000 USD\n  C  {}\n",
+                        fmt,
+                        a / 1000,
+                        a % 1000,
+                        other
+                    );
+                    if three {
+                        t.push_str("  D  7 JPY\n");
+                    }
+                    v.push(single(t, "numeric-residue"));
+                }
+            }
+        }
+    }
+    let n = if o.thorough { 3000 } else { 150 };
+    for k in 0..n {
+        let mut b = crate::ledger::Bias::default_bias();
+        b.format_pct = 90;
+        b.zero_pct = 25;
+        b.cost_pct = 40;
+        b.lot_pct = 25;
+        b.unbalanced_pct = if k % 2 == 0 { 70 } else { 10 };
+        b.omit_pct = 15;
+        b.assert_pct = 10;
+        b.max_txns = 3;
+        let es = crate::ledger::gen_ledger(r, &b);
+        v.push(single(crate::ledger::render(&es).text, "numeric-random"));
     }
     // random strings
     let n = if o.thorough { 6000 } else { 600 };
     for k in 0..n {
-        v.push(Single { text: pgen::random_text(r, k % 2 == 0), stream: "random", process: true, built: None });
+        v.push(single(pgen::random_text(r, k % 2 == 0), "random"));
     }
     // interleavings of valid and invalid lines
     let n = if o.thorough { 3000 } else { 300 };
@@ -321,7 +579,7 @@ fn singles(o: &Opts, r: &mut Rng) -> Vec<Single> {
                 }
             }
         }
-        v.push(Single { text: lines.concat(), stream: "interleaved", process: true, built: None });
+        v.push(single(lines.concat(), "interleaved"));
     }
     v
 }
@@ -335,10 +593,15 @@ fn load_cases(o: &Opts, r: &mut Rng) -> Vec<Vec<(String, String)>> {
     v.push(vec![f("/main.ledger", "include *.ledger\n")]);
     v.push(vec![f("/main.ledger", "include a.ledger\n"), f("/a.ledger", "include main.ledger\n")]);
     v.push(vec![f("/main.ledger", "include d/a.ledger\n"), f("/d/a.ledger", "include ../main.ledger\n")]);
+    v.push(vec![f("/main.ledger", "include d/../d/a.ledger\n"), f("/d/a.ledger", "include ../d/./../main.ledger\n")]);
     v.push(vec![f("/main.ledger", "include a.ledger\n"), f("/a.ledger", "include b.ledger\n"), f("/b.ledger", "include a.ledger\n")]);
+    v.push(vec![f("/main.ledger", "include a.ledger\n"), f("/a.ledger", "include b.ledger\n"), f("/b.ledger", "include c.ledger\n"), f("/c.ledger", "2024/01/01 x\n  A  1 USD\n  B\ninclude main.ledger\n")]);
     v.push(vec![f("/main.ledger", "include a.ledger\ninclude a.ledger\n"), f("/a.ledger", "2024/01/01 x\n")]);
+    v.push(vec![f("/main.ledger", "include d/*.ledger\n"), f("/d/a.ledger", "include *.ledger\n"), f("/d/b.ledger", "2024/01/01 x\n")]);
+    v.push(vec![f("/main.ledger", "2024/01/01 x\n  A  1 USD\n  B\ninclude a.ledger\n"), f("/a.ledger", "2024/01/01 (\n")]);
     v.push(vec![f("/main.ledger", "include missing.ledger\n")]);
     v.push(vec![f("/main.ledger", "include [.ledger\n")]);
+    v.push(vec![f("/main.ledger", "include d\n"), f("/d/a.ledger", "2024/01/01 x\n")]);
     let n = if o.thorough { 300 } else { 40 };
     for _ in 0..n {
         // random include graph over k files
@@ -368,12 +631,154 @@ fn load_cases(o: &Opts, r: &mut Rng) -> Vec<Vec<(String, String)>> {
     v
 }
 
+struct PriceInput {
+    ledger: String,
+    db: String,
+    x: String,
+    stream: &'static str,
+}
+
+const PRICE_LEDGER: &str = "2024/01/01 buy\n  Assets:Broker  10 AAPL @ 150 USD\n  Assets:Bank\n\n2024/01/05 fx\n  Assets:Bank  100 EUR @@ 110 USD\n  Assets:Bank\n\n2024/02/01 jp\n  Assets:Cash  1000 JPY\n  Equity\n\n2024/02/02 implied\n  Assets:Bank  -50 CHF\n  Assets:Bank  55 USD\n";
+
+fn price_cases(o: &Opts, r: &mut Rng) -> Vec<PriceInput> {
+    let mut v = Vec::new();
+    let fixed = [
+        "",
+        "\n",
+        "P 2024/01/02 EUR 1.1 USD\n",
+        "P 2024/01/02 EUR 1.1 USD",
+        "P 2024/01/02 EUR 0 USD\n",
+        "P 2024/01/02 EUR 0.00 USD\n",
+        "P 2024/01/02 EUR -0 USD\n",
+        "P 2024/01/02 USD 1 USD\n",
+        "P 2024/01/02 USD 0 USD\n",
+        "P 2024/01/02 USD 2 USD\nP 2024/01/03 EUR 1 EUR\n",
+        "P 2024/01/02 EUR -1.1 USD\n",
+        "P 2024/01/02 EUR 1.1\n",
+        "P 2024/01/02 EUR USD\n",
+        "P 2024/01/02 1.1 USD\n",
+        "P 2024/13/45 EUR 1.1 USD\n",
+        "P 2024-01-02 EUR 1.1 USD\r\nP 2024-01-03 JPY 0.007 USD\r\n",
+        "P  2024/01/02  EUR  1.1  USD  \n",
+        "P 2024/01/02 EUR 1.1 USD ; comment\n",
+        "; comment\nP 2024/01/02 EUR 1.1 USD\n",
+        "P\n",
+        "P ",
+        "Q 2024/01/02 EUR 1.1 USD\n",
+        "P 2024/01/02 EUR 1.1 USD\nP 2024/01/02 USD 0 EUR\nP 2024/01/03 JPY 0 JPY\nP 2024/01/04 CHF 1.2 USD\n",
+        "P 2024/01/02 EUR 0.0000000000000000000000000001 USD\n",
+        "P 2024/01/02 EUR 7922816251426433759354395033 USD\n",
+        "P 2024/01/02 EUR 79228162514264337593543950336 USD\n",
+        "P 2024/01/02 EUR (1.1 USD)\n",
+        "P 2024/01/02 EUR 1,1 USD\n",
+        "P 2024/01/02 AAPL 1 EUR\nP 2024/01/02 EUR 1 JPY\nP 2024/01/02 JPY 1 AAPL\nP 2024/01/02 CHF 1 CHF\n",
+        "P 2024/01/02 \u{7C73}\u{30C9}\u{30EB} 1.1 USD\n",
+        "\u{feff}P 2024/01/02 EUR 1.1 USD\n",
+        "P 9999/12/31 EUR 1.1 USD\nP 0001/01/01 EUR 1.2 USD\n",
+    ];
+    for (k, db) in fixed.iter().enumerate() {
+        v.push(PriceInput { ledger: PRICE_LEDGER.to_string(), db: db.to_string(), x: ["USD", "EUR", "JPY", "CHF", "AAPL"][k % 5].to_string(), stream: "price-db-fixed" });
+    }
+    // generated price cases: as generated, with lines mutated, zeroed, made self rates, and cut
+    // at every character of the price DB
+    let n = if o.thorough { 120 } else { 16 };
+    for k in 0..n {
+        let pc = crate::price::gen_price_case(r, k % 2 == 0, true);
+        let ledger = crate::ledger::render(&pc.entries).text;
+        let db = crate::price::db_text(&pc.db, k as u64);
+        let x = if pc.comms.is_empty() || r.chance(1, 8) {
+            crate::ledger::COMMODITIES[r.below(5) as usize].to_string()
+        } else {
+            crate::ledger::COMMODITIES[pc.comms[r.below(pc.comms.len() as u64) as usize]].to_string()
+        };
+        v.push(PriceInput { ledger: ledger.clone(), db: db.clone(), x: x.clone(), stream: "price-db-generated" });
+        let mut lines: Vec<String> = db.split_inclusive('\n').map(|s| s.to_string()).collect();
+        for _ in 0..(1 + r.below(3)) {
+            if lines.is_empty() {
+                break;
+            }
+            let i = r.below(lines.len() as u64) as usize;
+            let parts: Vec<String> = lines[i].split(' ').map(|s| s.to_string()).collect();
+            match r.below(5) {
+                0 if parts.len() >= 5 => lines[i] = format!("{} {} {} 0 {}", parts[0], parts[1], parts[2], parts[4]),
+                1 if parts.len() >= 5 => lines[i] = format!("{} {} {} {} {}\n", parts[0], parts[1], parts[2], parts[3], parts[2]),
+                2 => lines[i] = pgen::mutate(r, &lines[i]),
+                3 => {
+                    let mut junk = pgen::random_text(r, true);
+                    junk.push('\n');
+                    lines.insert(i, junk);
+                }
+                _ => {
+                    lines.remove(i);
+                }
+            }
+        }
+        v.push(PriceInput { ledger: ledger.clone(), db: lines.concat(), x: x.clone(), stream: "price-db-mutated" });
+        if k % 4 == 0 {
+            let chars: Vec<char> = db.chars().collect();
+            for cut in 0..chars.len().min(160) {
+                v.push(PriceInput { ledger: ledger.clone(), db: chars[..cut].iter().collect(), x: x.clone(), stream: "price-db-prefix" });
+            }
+        }
+    }
+    v
+}
+
+/// one run of the built binary in a fresh process: ok (exit 0) | err (exit 1) | panic (exit 101)
+/// | abort:<signal> | timeout | err:exit<n>
+fn bin_run(bin: &str, args: &[String], timeout_ms: u64) -> String {
+    use std::process::{Command, Stdio};
+    let mut child = match Command::new(bin)
+        .args(args)
+        .env_clear()
+        .env("RUST_BACKTRACE", "0")
+        .stdin(Stdio::null())
+        .stdout(Stdio::null())
+        .stderr(Stdio::null())
+        .spawn()
+    {
+        Ok(c) => c,
+        Err(e) => return format!("harness:{}", e),
+    };
+    let mut waited = 0u64;
+    loop {
+        match child.try_wait() {
+            Ok(Some(s)) => {
+                use std::os::unix::process::ExitStatusExt;
+                return match (s.code(), s.signal()) {
+                    (Some(0), _) => "ok".to_string(),
+                    (Some(1), _) => "err".to_string(),
+                    (Some(101), _) => "panic:exit 101".to_string(),
+                    (Some(n), _) => format!("abort:exit {}", n),
+                    (None, Some(sig)) => format!("abort:signal {}", sig),
+                    _ => "abort:unknown".to_string(),
+                };
+            }
+            Ok(None) => {
+                if waited >= timeout_ms {
+                    let _ = child.kill();
+                    let _ = child.wait();
+                    return "timeout".to_string();
+                }
+                std::thread::sleep(std::time::Duration::from_millis(2));
+                waited += 2;
+            }
+            Err(e) => return format!("harness:{}", e),
+        }
+    }
+}
+
 pub fn run(o: &Opts) {
     let mut st = Stats::new();
     let mut sh = Shards::new(&o.out, o.shards, &crate::c05::header("Classify_C06"));
-    st.rule = "cases: every prefix (cut at every character) of generated valid ledgers; random strings over the ledger alphabet and arbitrary Unicode; generated ledgers with deleted/inserted/swapped/mutated lines; 100..100000 nested parentheses, minus signs and repeated lines; literals of 27..100000 digits; zero rates and amounts in every position; include graphs with self-includes and cycles (Loader::load on a FakeFileSystem). Each runs in a child process (5 s watchdog): parse_ledger, FormatOptions::format, report::process, balance and postings queries. non-trivial = the text is not accepted as a fully valid ledger (an error path ran); distinct by text".to_string();
-    st.assumptions.push("report::process and the queries are skipped for literals beyond 12 digits and nesting beyond 200 (the property exempts numbers outside the representable decimal range)".to_string());
+    st.rule = "cases: every prefix (cut at every character) of generated valid ledgers; random strings over the ledger alphabet and arbitrary Unicode; generated ledgers with deleted/inserted/swapped/mutated lines; generated ledgers that book, whole and cut at every line; 100..100000 nested parentheses, minus signs and repeated lines; literals of 27..100000 digits; zero rates, zero amounts and self rates in every position; balance assertions in commodities of wide, zero-width and sequence-forming characters; include graphs with self-includes and cycles, on a FakeFileSystem (Loader::load, report::process) and as files of the real file system; price-DB files with malformed lines, zero rates, self rates, cut at every character; numerically adversarial valid ledgers (declared formats, half-unit and sub-precision residues beside other commodities, zero amounts with costs and lots, two- and three-commodity residuals); unicode-width measured directly on expression heads followed by a space and sequence-forming characters. Each runs in a child process (5 s watchdog): parse_ledger, FormatOptions::format, report::process, balance and postings queries, and the commands format / balance / balance -X (up to date, --historical, with a date range) / register / accounts (/ --price-db) in-process on the real file; the corpus, the include graphs and the price-DB cases also through the built okane binary in fresh processes (exit status, signal, 5 s limit). non-trivial = the text is not accepted as a fully valid ledger or a command answered an error (an error path ran); distinct by input".to_string();
+    st.assumptions.push("report::process, the queries and the report commands are skipped for literals beyond 12 digits; report::process and the queries for nesting beyond 200 (the property exempts numbers outside the representable decimal range); `okane format` runs on all of them".to_string());
+    st.assumptions.push("the clock is an input: every report command gets --now".to_string());
     let mut r = Rng::new(o.seed, 6);
+    let bin = std::env::var("OKV_OKANE_BIN").ok().filter(|b| std::path::Path::new(b).exists());
+    if bin.is_none() {
+        st.assumptions.push("OKV_OKANE_BIN not set: the fresh-process leg did not run".to_string());
+    }
     // replay of one recorded text
     let replay: Option<String> = o
         .extra
@@ -384,7 +789,7 @@ pub fn run(o: &Opts) {
         .and_then(|t| serde_json::from_str::<Value>(&t).ok())
         .and_then(|v| v.get("text").and_then(|x| x.as_str()).map(|s| s.to_string()));
     if let Some(text) = replay {
-        let obs = child::run_batch("c06", &[input_json(&text, true)], 5000);
+        let obs = child::run_batch("c06", &[input_json(&text, true, "all")], 5000);
         let (t, v, _) = obs_term(&obs[0]);
         count_obs(&mut st, &obs[0], &v);
         st.eval(&text, true);
@@ -396,17 +801,19 @@ pub fn run(o: &Opts) {
     // 1. single texts
     let items = singles(o, &mut r);
     for chunk in items.chunks(100) {
-        let inputs: Vec<Vec<u8>> = chunk.iter().map(|i| input_json(&i.text, i.process)).collect();
+        let inputs: Vec<Vec<u8>> = chunk.iter().map(|i| input_json(&i.text, i.process, i.cli)).collect();
         let obs = child::run_batch("c06", &inputs, 5000);
         for (it, co) in chunk.iter().zip(obs.iter()) {
             let (t, v, bad) = obs_term(co);
             count_obs(&mut st, co, &v);
             st.count(&format!("stream:{}", it.stream));
             let accepted = v["parse"].as_str() == Some("ok");
-            st.eval(&it.text, !accepted);
+            let cmd_err = outcomes(&v["cli"], &CLI_NAMES).iter().any(|s| s.starts_with("err"));
+            st.eval(&it.text, !accepted || cmd_err);
             let shown: String = if it.text.len() > 400 { format!("{}… ({} bytes)", it.text.chars().take(200).collect::<String>(), it.text.len()) } else { it.text.clone() };
             let rep = json!({"property": "C06", "text": if it.text.len() <= 20000 { json!(it.text) } else { json!(null) }, "shown": shown,
-                             "stream": it.stream, "impl": v, "reproduce": "parse_ledger / FormatOptions::format / report::process on a FakeFileSystem"});
+                             "stream": it.stream, "impl": v, "commands": CLI_NAMES,
+                             "reproduce": "parse_ledger / FormatOptions::format / report::process on a FakeFileSystem; okane format|balance [-X C --now 2024-06-01 [--historical | --start 2000-01-01 --end 2024-03-01]]|register [A]|accounts on the text written to a file"});
             if !accepted && !bad {
                 st.sample(rep.clone(), 4);
             }
@@ -428,7 +835,7 @@ pub fn run(o: &Opts) {
         }
         let chars: Vec<char> = text.chars().collect();
         let prefixes: Vec<String> = (0..=chars.len()).map(|k| chars[..k].iter().collect()).collect();
-        let inputs: Vec<Vec<u8>> = prefixes.iter().map(|p| input_json(p, true)).collect();
+        let inputs: Vec<Vec<u8>> = prefixes.iter().map(|p| input_json(p, true, "all")).collect();
         let obs = child::run_batch("c06", &inputs, 5000);
         let mut terms = Vec::new();
         let mut reps = Vec::new();
@@ -439,22 +846,24 @@ pub fn run(o: &Opts) {
             let accepted = v["parse"].as_str() == Some("ok");
             st.eval(p, !accepted);
             terms.push(t);
-            reps.push(json!({"property": "C06", "text": p, "stream": "prefix", "impl": v,
-                             "reproduce": "parse_ledger / FormatOptions::format / report::process on a FakeFileSystem"}));
+            reps.push(json!({"property": "C06", "text": p, "stream": "prefix", "impl": v, "commands": CLI_NAMES,
+                             "reproduce": "parse_ledger / FormatOptions::format / report::process on a FakeFileSystem; the okane commands on the text written to a file"}));
         }
         sh.push(format!("Prefixes {} {}", parseobs::text(&text), coq::list(terms)), reps);
     }
-    // 3. include graphs
+    // 3. include graphs: FakeFileSystem and the real file system, in a child process
     let graphs = load_cases(o, &mut r);
     let inputs: Vec<Vec<u8>> = graphs
         .iter()
         .map(|files| json!({"files": files.iter().map(|(p, c)| json!([p, c])).collect::<Vec<_>>()}).to_string().into_bytes())
         .collect();
     let obs = child::run_batch("c06load", &inputs, 5000);
-    for (files, co) in graphs.iter().zip(obs.iter()) {
-        let (t, v) = match co {
-            ChildObs::Timeout => ("RTimeout".to_string(), json!("timeout")),
-            ChildObs::Abort(s) => ("RAbort".to_string(), json!({ "abort": s })),
+    const REAL_NAMES: [&str; 6] = ["flatten", "balance", "balance_x", "register", "accounts", "format"];
+    let scratch = cli::Scratch::new("c06bin");
+    for (gi, (files, co)) in graphs.iter().zip(obs.iter()).enumerate() {
+        let (fake_load, fake, real, v) = match co {
+            ChildObs::Timeout => ("RTimeout", "RTimeout".to_string(), Vec::new(), json!("timeout")),
+            ChildObs::Abort(s) => ("RAbort", "RAbort".to_string(), Vec::new(), json!({ "abort": s })),
             ChildObs::Line(l) => {
                 let v: Value = serde_json::from_str(l).unwrap_or(json!({}));
                 let worst = ["load", "process", "query"].iter().map(|k| outcome(v[*k].as_str().unwrap_or("harness"))).fold("ROk", |a, b| {
@@ -466,15 +875,133 @@ pub fn run(o: &Opts) {
                         a
                     }
                 });
-                (worst.to_string(), v)
+                (outcome(v["load"].as_str().unwrap_or("harness")), worst.to_string(), outcomes(&v["real"], &REAL_NAMES), v)
             }
         };
+        // the built binary, one fresh process per command
+        let mut bin_obs: Vec<String> = Vec::new();
+        if let Some(b) = &bin {
+            for (p, c) in files {
+                scratch.write(&format!("g{}/{}", gi, p.trim_start_matches('/')), c);
+            }
+            let main = scratch.dir.join(format!("g{}/main.ledger", gi)).to_string_lossy().to_string();
+            for args in [vec!["balance"], vec!["register", "--now", "2024-06-01"], vec!["accounts"], vec!["primitive", "flatten"]] {
+                let mut a: Vec<String> = args.iter().map(|s| s.to_string()).collect();
+                a.push(main.clone());
+                let oc = bin_run(b, &a, 5000);
+                st.count(&format!("bin:{}:{}", args[0], oc.split(':').next().unwrap_or("")));
+                bin_obs.push(oc);
+            }
+        }
         count_obs(&mut st, co, &v);
         st.count("stream:include-graph");
-        st.eval(files, t != "ROk");
-        let rep = json!({"property": "C06", "files": files, "stream": "include-graph", "impl": v,
-                         "reproduce": "Loader::new(\"/main.ledger\", FakeFileSystem).load / report::process"});
-        sh.push(format!("LoadCase {}", t), vec![rep]);
+        st.eval(files, fake != "ROk");
+        let rep = json!({"property": "C06", "files": files, "stream": "include-graph", "impl": v, "binary": bin_obs,
+                         "commands_real": REAL_NAMES, "commands_binary": ["balance", "register", "accounts", "primitive flatten"],
+                         "reproduce": "Loader::new(\"/main.ledger\", FakeFileSystem).load / report::process; the same files written to a directory and okane <command> main.ledger"});
+        sh.push(format!("LoadCase {} {} {} {}", fake_load, fake, outcome_list(&real), outcome_list(&bin_obs)), vec![rep]);
+    }
+    // 4. price-DB files
+    let pcs = price_cases(o, &mut r);
+    let inputs: Vec<Vec<u8>> = pcs.iter().map(|p| json!({"ledger": p.ledger, "db": p.db, "x": p.x}).to_string().into_bytes()).collect();
+    let obs = child::run_batch("c06price", &inputs, 5000);
+    for (pi, (pc, co)) in pcs.iter().zip(obs.iter()).enumerate() {
+        let (os, v) = match co {
+            ChildObs::Timeout => (vec!["timeout".to_string()], json!("timeout")),
+            ChildObs::Abort(s) => (vec![format!("abort:{}", s)], json!({ "abort": s })),
+            ChildObs::Line(l) => {
+                let v: Value = serde_json::from_str(l).unwrap_or(json!({}));
+                (outcomes(&v, &PRICE_NAMES), v)
+            }
+        };
+        let mut bin_obs: Vec<String> = Vec::new();
+        if let (Some(b), true) = (&bin, pc.stream != "price-db-prefix") {
+            let main = scratch.write(&format!("p{}/main.ledger", pi), &pc.ledger).to_string_lossy().to_string();
+            let db = scratch.write(&format!("p{}/prices.db", pi), &pc.db).to_string_lossy().to_string();
+            for hist in [false, true] {
+                let mut a: Vec<String> = vec!["balance".into(), "--price-db".into(), db.clone(), "-X".into(), pc.x.clone(), "--now".into(), "2024-06-01".into()];
+                if hist {
+                    a.push("--historical".into());
+                }
+                a.push(main.clone());
+                let oc = bin_run(b, &a, 5000);
+                st.count(&format!("bin:balance-price-db:{}", oc.split(':').next().unwrap_or("")));
+                bin_obs.push(oc);
+            }
+        }
+        for (k, s) in PRICE_NAMES.iter().zip(os.iter()) {
+            st.count(&format!("price:{}:{}", k, s.split(':').next().unwrap_or("")));
+        }
+        st.count(&format!("stream:{}", pc.stream));
+        st.eval(&(&pc.ledger, &pc.db, &pc.x), os.iter().any(|s| s.starts_with("err")));
+        let rep = json!({"property": "C06", "ledger": pc.ledger, "price_db": pc.db, "exchange": pc.x, "stream": pc.stream, "impl": v, "binary": bin_obs,
+                         "commands": PRICE_NAMES,
+                         "reproduce": "okane balance --price-db prices.db [-X C --now 2024-06-01 [--historical]] main.ledger; okane register --price-db prices.db main.ledger"});
+        sh.push(format!("CmdCase {} {}", outcome_list(&os), outcome_list(&bin_obs)), vec![rep]);
+    }
+    // 5. the corpus texts through the built binary
+    if let Some(b) = &bin {
+        let corpus: Vec<&Single> = items.iter().filter(|i| i.stream == "corpus" || i.stream == "corpus-file" || i.stream == "width-oracle" || i.stream == "zero-positions").collect();
+        for (ci, it) in corpus.iter().enumerate() {
+            let main = scratch.write(&format!("c{}/main.ledger", ci), &it.text).to_string_lossy().to_string();
+            let x = some_commodity(&it.text);
+            let mut bin_obs = Vec::new();
+            let cmds: Vec<Vec<String>> = vec![
+                vec!["format".into()],
+                vec!["balance".into()],
+                vec!["balance".into(), "-X".into(), x.clone(), "--now".into(), "2024-06-01".into()],
+                vec!["balance".into(), "-X".into(), x.clone(), "--historical".into(), "--now".into(), "2024-06-01".into()],
+                vec!["register".into(), "--now".into(), "2024-06-01".into()],
+                vec!["accounts".into()],
+            ];
+            for c in &cmds {
+                let mut a = c.clone();
+                a.push(main.clone());
+                let oc = bin_run(b, &a, 5000);
+                st.count(&format!("bin:{}:{}", c[0], oc.split(':').next().unwrap_or("")));
+                bin_obs.push(oc);
+            }
+            st.count("stream:binary-corpus");
+            st.eval(&("bin", &it.text), bin_obs.iter().any(|s| s.starts_with("err")));
+            let rep = json!({"property": "C06", "text": it.text, "stream": "binary-corpus", "binary": bin_obs,
+                             "commands_binary": ["format", "balance", format!("balance -X {} --now 2024-06-01", x), format!("balance -X {} --historical --now 2024-06-01", x), "register --now 2024-06-01", "accounts"],
+                             "reproduce": "the built okane binary, one fresh process per command, on the text written to main.ledger"});
+            sh.push(format!("CmdCase [] {}", outcome_list(&bin_obs)), vec![rep]);
+        }
+    }
+    // 6. the hypothesis of C06_format_total on the real oracle: unicode-width's width_cjk of
+    // HEAD ++ " " ++ TAIL (HEAD: digits and expression punctuation) against len(HEAD) + width_cjk(" " ++ TAIL)
+    {
+        use unicode_width::UnicodeWidthStr;
+        let heads = ["1", "-12,345.60", "(1 + 2) * 3", "((0.5", "-(1", "9", "1 / 3 - 2", "1 * 2", "0"];
+        let pool: Vec<char> = "\u{FE0F}\u{FE0E}\u{200D}\u{20E3}\u{1F642}\u{1F468}\u{1F1E6}\u{1F1E7}\u{17D2}\u{1780}\u{2D31}\u{2D7F}\u{644}\u{627}\u{A4F8}\u{A4FC}\u{0301}\u{200B}\u{0338}\u{7C73}\u{1F3FB}\u{E007F}\u{E0061}\u{00AD}\u{1160}\u{11A8}\u{5DC}\u{5D0}\u{1A10}\u{1A17}\u{1A15}\u{10C03}\u{10C32}\u{1F3F4}aZ$<=>#*19".chars().collect();
+        let n = if o.thorough { 20000 } else { 1500 };
+        for k in 0..n {
+            let head = heads[k % heads.len()];
+            let len = 1 + r.below(6) as usize;
+            let tail: String = (0..len).map(|_| *r.pick(&pool)).collect();
+            let spaced = format!(" {}", tail);
+            let whole = UnicodeWidthStr::width_cjk(format!("{}{}", head, spaced).as_str());
+            let wt = UnicodeWidthStr::width_cjk(spaced.as_str());
+            let alone = UnicodeWidthStr::width_cjk(head);
+            st.count("stream:width-oracle-direct");
+            st.eval(&("oracle", head, &tail), whole != head.len() + 1 + tail.chars().count());
+            let rep = json!({"property": "C06", "stream": "width-oracle-direct", "head": head, "tail": tail, "width_cjk_whole": whole, "width_cjk_space_tail": wt, "width_cjk_head": alone,
+                             "reproduce": "unicode_width::UnicodeWidthStr::width_cjk(head + \" \" + tail)"});
+            sh.push(format!("OracleCase {} {} {} {}", head.len(), alone, whole, wt), vec![rep]);
+        }
+    }
+    drop(scratch);
+    // scratch directories of children that were killed
+    if let Ok(base) = std::env::var("OKV_SCRATCH") {
+        if let Ok(rd) = std::fs::read_dir(&base) {
+            for e in rd.filter_map(|e| e.ok()) {
+                let n = e.file_name().to_string_lossy().to_string();
+                if n.starts_with("c06-") || n.starts_with("c06g-") || n.starts_with("c06p-") {
+                    let _ = std::fs::remove_dir_all(e.path());
+                }
+            }
+        }
     }
     sh.finish(&st);
 }
